@@ -25,6 +25,7 @@ ASSUMPTIONS = [
     "terms compare by (class, lexical form, datatype, language): the pool contains no two distinct terms that rdflib considers equal",
     "members of a negated property set are IRIs or inverted IRIs (the SPARQL grammar); InvPath(<path>) inside NegatedPath is outside the model",
     "the Python interpreter's resources (stack depth, memory) are outside the model; suite deep_chain checks chains of up to 2500 steps",
+    "suite bgp: the order in which evalBGP receives the triple patterns is read back from the translated algebra (algebra.reorderTriples is not modelled); its checker bspec_ok is tied to the model by evaluation on every case, not by a theorem",
     "SPARQL route: the text->tree step of parser.py is covered by conformance only (suite translate compares the translated object with the model of translatePath on the tree the text was rendered from); 'a' and DISTINCT(path) are not generated",
 ]
 RULE = ("path AST of depth <= 4 (iri, ^, /, |, * + ?, negated sets) x graph of <= 8 triples over <= 5 nodes with self-loops, 2-cycles, "
@@ -42,7 +43,9 @@ RULE = ("path AST of depth <= 4 (iri, ^, /, |, * + ?, negated sets) x graph of <
         "rdflib; the translated object's structure is compared with the model of translatePath and its relation with the tree's relation over a "
         "small graph; non-trivial = the object is not a plain IRI.  Suite path_in_graph also asks a ReadOnlyGraphAggregate of the layout's graphs "
         "(triples, SPARQL, `in`).  Suite same_var: ?x path ?x.  Suite deep_chain: closures over chains of 1100-2500 triples (beyond the recursion "
-        "limit), number of answers compared with the model's eval and the closed form.  Suite paths also inserts the triples in list / reversed / shuffled order")
+        "limit), number of answers compared with the model's eval and the closed form.  Suite bgp: BGPs of 2-3 triple patterns with plain and path "
+        "predicates over 2-3 variables, constant ends (nodes, falsy literals, outside terms), initBindings; the evaluation order is read back from the "
+        "translated algebra; solutions compared as multisets of maps; non-trivial = some pattern has a path predicate.  Suite paths also inserts the triples in list / reversed / shuffled order")
 
 NODE_VOCAB = [1, 2, 12, 8, 13, 5, 6, 7, 10, 14]   # a b c _:b1 _:b2 "" 0 false "x" 0.0
 LITS = {5, 6, 7, 9, 10, 11, 14}
@@ -1229,4 +1232,217 @@ class C11D(Suite):
             yield dict(case, n=case["n"] - 1)
 
 
-SUITES = [C11(), C11H(), C11G(), C11T(), C11S(), C11D()]
+
+# ---------------------------------------------------------------------------
+# evaluate.evalBGP on basic graph patterns of two or three triple patterns, plain and path predicates mixed.
+# case = {"g": [[s,p,o]..], "init": [[var, term]..], "pats": [[end, ast, end]..]}   end = ["v", n] | ["c", term]
+# The patterns are listed in the order in which rdflib evaluates them (read back from the translated algebra:
+# algebra.reorderTriples may move patterns); "text" keeps the order they were written in.
+def c_end(e):
+    return f"(EV {cN(e[1])})" if e[0] == "v" else f"(EC {cN(e[1])})"
+
+
+class C11B(Suite):
+    name = "bgp"
+    imports = "From RV Require Import Paths.BgpModel."
+    case_ty = "bcase"
+    obs_ty = "bobs"
+    model = "bmodel_obs"
+    oeq = "bobs_eqb"
+    spec = "bspec_ok"
+    corr = "evaluate.evalBGP (pattern loop, substitution of earlier bindings, AlreadyBound), algebra.reorderTriples (order read back), paths.py"
+    quick_n = 500
+    thorough_n = 8000
+    timeout_s = 10.0
+
+    def gen(self, rng, i):
+        k = rng.choice([2, 3, 3, 4])
+        vocab = rng.sample(NODE_VOCAB, k)
+        if rng.random() < 0.5 and not (set(vocab) & {5, 6, 7, 14}):
+            vocab[-1] = rng.choice([5, 6, 7, 14])
+        preds = list(PREDS)
+        subj_ok = [v for v in vocab if v not in LITS] or vocab
+        g = []
+        for _ in range(rng.choice([3, 4, 5, 6, 7, 8])):
+            s = rng.choice(vocab if rng.random() < 0.25 else subj_ok)
+            t = [s, rng.choice(preds), s if rng.random() < 0.1 else rng.choice(vocab)]
+            if g and rng.random() < 0.3:
+                t = [rng.choice(g)[2], rng.choice(preds), rng.choice(vocab)]
+            if t not in g:
+                g.append(t)
+        nodes = sorted({x for t in g for x in (t[0], t[2])})
+
+        def const():
+            r = rng.random()
+            pool = [x for x in (nodes if r < 0.8 else [9, 11, 5, 6, 7, 10, 12]) if x not in (8, 13)]   # no blank nodes in text
+            return ["c", rng.choice(pool or [1])]
+
+        npat = rng.choice([2, 2, 3])
+        nv = rng.choice([2, 2, 3, 3])
+        pats = []
+        for j in range(npat):
+            last = []
+
+            def end():
+                if rng.random() < 0.72:
+                    v = rng.randint(1, nv)
+                    if last and last[0] == v and rng.random() < 0.85:      # mostly different variables at the two ends
+                        v = v % nv + 1
+                    last.append(v)
+                    return ["v", v]
+                return const()
+            if rng.random() < 0.45:
+                ast = ["iri", rng.choice(preds)]
+            else:
+                while True:
+                    ast = gen_path(rng, rng.choice([2, 2, 3]), preds, singles=False)
+                    if not contains_inv_member(ast) and not contains_empty_neg(ast):
+                        break
+            pats.append([end(), ast, end()])
+        used = sorted({e[1] for p_ in pats for e in (p_[0], p_[2]) if e[0] == "v"})
+        init = []
+        if used and rng.random() < 0.3:
+            r = rng.random()
+            val = rng.choice(nodes) if (r < 0.7 and nodes) else rng.choice([9, 11, 5, 6, 7, 13])
+            init = [[rng.choice(used), val]]
+        return {"g": g, "init": init, "pats": pats, "text": pats}
+
+    def _query(self, case):
+        from rdflib.plugins.sparql import prepareQuery
+
+        def etxt(e):
+            return "?v%d" % e[1] if e[0] == "v" else term(e[1]).n3()
+        body = " . ".join("%s %s %s" % (etxt(s), sparql_path(normal(a)), etxt(o)) for s, a, o in case["text"])
+        return prepareQuery("SELECT * WHERE { %s }" % body)
+
+    def evaluation_order(self, case):
+        """the case with its patterns in the order of the translated algebra"""
+        q = self._query(case)
+        triples = find_triples(q.algebra)
+
+        def eback(x):
+            return ["v", int(str(x)[1:])] if isinstance(x, Variable) else ["c", term_id(x)]
+        ordered = [[eback(s), ast_of(p), eback(o)] for s, p, o in triples]
+        want = sorted(json_key([s, normal(a), o]) for s, a, o in case["text"])
+        if sorted(json_key(x) for x in ordered) != want:
+            raise AssertionError("harness: the algebra's triple patterns are not the written ones")
+        return q, ordered
+
+    def finish(self, case):
+        _, ordered = self.evaluation_order(case)
+        return dict(case, pats=ordered)
+
+    def run_impl(self, case):
+        try:
+            q, ordered = self.evaluation_order(case)
+            if ordered != case["pats"]:
+                raise AssertionError("harness: evaluation order changed between generation and run")
+            g = Graph()
+            for t in case["g"]:
+                g.add(tuple(term(x) for x in t))
+            res = g.query(q, initBindings={"v%d" % v: term(t) for v, t in case["init"]})
+            return ["ok", sorted(sorted([int(str(k)[1:]), term_id(v)] for k, v in b.items()) for b in res.bindings)]
+        except Exception as e:  # noqa: BLE001
+            return ["raised", type(e).__name__ + ": " + str(e)[:80]]
+
+    def on_timeout(self, case):
+        return ["timeout"]
+
+    def coq_case(self, case):
+        g = clist(ctuple(cN(t[0]), cN(t[1]), cN(t[2])) for t in case["g"])
+        init = clist(ctuple(cN(v), cN(t)) for v, t in case["init"])
+        pats = clist(ctuple(c_end(s), c_path(a), c_end(o)) for s, a, o in case["pats"])
+        return "{| b_g := " + g + "; b_init := " + init + "; b_pats := " + pats + " |}"
+
+    def coq_obs(self, obs):
+        if obs[0] == "ok":
+            return "(Ok " + clist(clist(ctuple(cN(v), cN(t)) for v, t in b) for b in obs[1]) + ")"
+        return "OutOfFuel" if obs[0] == "timeout" else "Raised"
+
+    def nontrivial(self, case, obs):
+        return obs[0] == "ok" and any(a[0] != "iri" for _, a, _ in case["pats"])
+
+    def features(self, case, obs):
+        f = {"patterns_%d" % len(case["pats"]): 1, "init_bindings": int(bool(case["init"])),
+             "reordered_by_algebra": int(case["pats"] != [[s, normal(a), o] for s, a, o in case["text"]]),
+             "path_patterns": sum(1 for _, a, _ in case["pats"] if a[0] != "iri"),
+             "plain_patterns": sum(1 for _, a, _ in case["pats"] if a[0] == "iri")}
+        seen = set()
+        for s, _, o in case["pats"]:
+            for e in (s, o):
+                if e[0] == "v" and e[1] in seen:
+                    f["end_bound_by_earlier_pattern"] = 1
+            if s[0] == "v" and o[0] == "v" and s[1] == o[1]:
+                f["same_variable_both_ends"] = 1
+            seen |= {e[1] for e in (s, o) if e[0] == "v"}
+        if any(e[0] == "c" and e[1] in (5, 6, 7, 14) for s, _, o in case["pats"] for e in (s, o)) or any(t in (5, 6, 7, 14) for _, t in case["init"]):
+            f["falsy_constant_or_binding"] = 1
+        if obs[0] == "ok":
+            f["solutions_nonempty"] = int(bool(obs[1]))
+        else:
+            f["obs_" + obs[0]] = 1
+        return f
+
+    def shrink(self, case):
+        g = case["g"]
+        for i in range(len(g)):
+            yield dict(case, g=g[:i] + g[i + 1:])
+        if case["init"]:
+            yield dict(case, init=[])
+        t = case["text"]
+        if len(t) > 1:
+            for i in range(len(t)):
+                try:
+                    yield self.finish(dict(case, text=t[:i] + t[i + 1:]))
+                except Exception:  # noqa: BLE001
+                    pass
+        for i, (s, a, o) in enumerate(t):
+            for sp in subpaths(a):
+                try:
+                    yield self.finish(dict(case, text=t[:i] + [[s, sp, o]] + t[i + 1:]))
+                except Exception:  # noqa: BLE001
+                    pass
+
+
+def json_key(x):
+    import json
+    return json.dumps(x)
+
+
+def find_triples(node):
+    from rdflib.plugins.sparql.parserutils import CompValue
+    if isinstance(node, CompValue):
+        if "triples" in node and node["triples"]:
+            return list(node["triples"])
+        for v in node.values():
+            r = find_triples(v)
+            if r:
+                return r
+    elif isinstance(node, (list, tuple)):
+        for v in node:
+            r = find_triples(v)
+            if r:
+                return r
+    return []
+
+
+def contains_empty_neg(ast):
+    if ast[0] == "neg":
+        return not ast[1]
+    if ast[0] in ("inv", "mul"):
+        return contains_empty_neg(ast[1])
+    if ast[0] in ("seq", "alt"):
+        return any(contains_empty_neg(x) for x in ast[1])
+    return False
+
+
+_B_GEN = C11B.gen
+
+
+def _bgen(self, rng, i):
+    return self.finish(_B_GEN(self, rng, i))
+
+
+C11B.gen = _bgen
+
+SUITES = [C11(), C11H(), C11G(), C11T(), C11S(), C11D(), C11B()]
